@@ -81,7 +81,10 @@ impl Prop for C06 {
             let cached_before = r.cached();
             let notes = r.apply_edits(step);
             let sent = r.send(step, notes);
-            r.barrier();
+            if !r.barrier() {
+                out.fail("reload-lost", format!("step {sn}: the notified change of a loaded asset's file (the barrier's sentinel) was never applied although hot_reload kept returning"));
+                break;
+            }
             let deps_after = union(&r.world.shadow_deps(), &r.world.shadow_failed_extra());
             let all = union(&deps_before, &deps_after);
             let mut notified: Vec<OwnedEntry> = sent.clone();
